@@ -15,10 +15,10 @@ import mem_gen
 import prop_lib
 
 C03_VFILES = ["Mem/Alloc.v", "Mem/AllocProofs.v", "Mem/PropList.v", "Mem/Owned.v", "Mem/PropListProofs.v",
-              "Mem/ParamSlots.v", "Mem/ParamProofs.v", "Mem/DataAlloc.v", "Mem/DataProofs.v", "Mem/AddArrays.v", "Mem/AddArraysProofs.v",
+              "Mem/ParamSlots.v", "Mem/ParamProofs.v", "Mem/DataAlloc.v", "Mem/DataProofs.v", "Mem/DataZ0.v", "Mem/DataZ0Proofs.v", "Mem/AddArrays.v", "Mem/AddArraysProofs.v",
               "Mem/HashTab.v", "Mem/HashTabProofs.v", "Properties_C03.v"]
 C12_VFILES = ["Mem/Alloc.v", "Mem/AllocProofs.v", "Mem/PropList.v", "Mem/Owned.v", "Mem/PropListProofs.v",
-              "Mem/ParamSlots.v", "Mem/ParamProofs.v", "Mem/DataAlloc.v", "Mem/DataProofs.v",
+              "Mem/ParamSlots.v", "Mem/ParamProofs.v", "Mem/DataAlloc.v", "Mem/DataProofs.v", "Mem/DataZ0.v", "Mem/DataZ0Proofs.v",
               "Mem/HashTab.v", "Mem/HashTabProofs.v", "Properties_C12.v"]
 
 MODELLED = [
@@ -28,6 +28,10 @@ MODELLED = [
     "vnacal_delete_parameter look-up (coq/Mem/ParamSlots.v)",
     "vnadata_alloc.c: vnadata_alloc, _vnadata_extend_p, _vnadata_extend_m, _vnadata_extend_f, the allocation part of vnadata_resize, "
     "vnadata_free, for an object whose z0 mode is fixed (coq/Mem/DataAlloc.v)",
+    "vnadata z0 modes: _vnadata_convert_to_fz0 (row vector and one row for EVERY allocated frequency, unwind of the rows, release of the "
+    "simple vector), _vnadata_convert_to_z0, vnadata_set_z0, vnadata_set_fz0, vnadata_set_all_z0, vnadata_set_z0_vector and "
+    "vnadata_set_fz0_vector with the caller's vector taken from vnadata_get_z0_vector / vnadata_get_fz0_vector of the same object "
+    "(copy before the conversion: D72 / D73), the loops of vnadata_resize that re-initialise vacated z0 cells (coq/Mem/DataZ0.v)",
     "vnacal_new_add_common.c: declared lengths of m_cell_map, s_cell_map, port_connected, m_row_given, m_column_given, "
     "s_row_given, s_column_given against the loop bounds, calls without port map (coq/Mem/AddArrays.v)",
     "vnacal_new_parameter.c: hash_expand, hash_lookup, hash_insert, _vnacal_new_init_parameter_hash, "
@@ -36,7 +40,7 @@ MODELLED = [
     "vnaproperty.c: map_compare_keys (as the rank of (crc32c, name)), map_find_anchor, map_expand, map_subtree, map_delete, "
     "map_alloc, the calloc/fill of vnaproperty_vkeys, vnaproperty_free of a map (coq/Mem/HashTab.v)",
 ]
-MODELLED_C12 = MODELLED[:3] + MODELLED[4:]
+MODELLED_C12 = MODELLED[:4] + MODELLED[5:]
 
 HASH_PARAMS = 150         # scalar parameters created for the parameter-hash scripts (indices 3 .. 152)
 
@@ -209,6 +213,51 @@ def gen_tie_script(rng, n, faults, obj):
     return ops
 
 
+def gen_z_script(rng, n, faults):
+    """one vnadata_t driven through resize (grow, shrink, grow back inside the allocation) and every z0 setter, the vector
+    setters with a buffer of the harness, with the object's own z0 vector and with one of its per-frequency rows; indices
+    from valid / boundary / invalid domains"""
+    ops = ["-1 Z new"]
+    r = c = f = 0
+    for _ in range(n):
+        k = -1
+        if faults and rng.random() < 0.6:
+            k = rng.randrange(0, 12)
+        y = rng.random()
+        fi = rng.choice([0, 0, 1, max(f - 1, 0), f, f + 1, -1, 2, 3])
+        pi = rng.choice([0, 0, 1, max(max(r, c) - 1, 0), max(r, c), -1])
+        if y < 0.34:
+            nr, nc = rng.choice([(0, 0), (1, 1), (2, 2), (3, 3), (1, 3), (4, 2), (2, 2), (0, 2), (-1, 1), (4, 4)])
+            nf = rng.choice([0, 1, 2, 3, 5, 8, 10, -1])
+            ops.append("%d Z resize %d %d %d" % (k, nr, nc, nf))
+            if k < 0 and nr >= 0 and nc >= 0 and nf >= 0:
+                r, c, f = nr, nc, nf
+        elif y < 0.5:
+            ops.append("%d Z setfz0 %d %d" % (k, fi, pi))
+        elif y < 0.68:
+            ops.append("%d Z setfz0v %d %d %d" % (k, fi, rng.choice([0, 1, 1, 2, 2]), rng.choice([0, 1, max(f - 1, 0), f, -1])))
+        elif y < 0.78:
+            ops.append("%d Z setz0 %d" % (k, pi))
+        elif y < 0.93:
+            ops.append("%d Z setz0v %d %d" % (k, rng.choice([0, 1, 2, 2, 2]), rng.choice([0, 1, max(f - 1, 0), f, -1])))
+        else:
+            ops.append("%d Z setallz0" % k)
+    ops.append("-1 Z free")
+    return ops
+
+
+def gen_list_boundary_script(rng, n, faults):
+    """a list filled to exactly n cells (n = 8, 16, 32: the vector is full), then every op kind at the boundary"""
+    def k():
+        return rng.choice([-1, 0, 1, 2]) if faults else -1
+    ops = ["-1 L new"] + ["-1 L append"] * n
+    tail = ["%d L insert 3" % k(), "-1 L insert 3", "%d L append" % k(), "-1 L delete 0", "-1 L delete 0", "%d L insert %d" % (k(), n - 1),
+            "-1 L insert %d" % (n - 1), "%d L set %d" % (k(), n + 3), "-1 L get %d" % n, "-1 L delete %d" % (n + 3), "-1 L insert 0", "-1 L free"]
+    if rng.random() < 0.5:
+        tail = tail[2:4] + tail[0:2] + tail[4:]
+    return ops + tail
+
+
 def gen_add_cases(rng, n):
     out = []
     for _ in range(n):
@@ -233,6 +282,11 @@ WITNESSES = {
     "plist_delete_orig_leak_refuted": ["-1 L new", "-1 L append", "-1 L append", "-1 L delete 0", "-1 L free"],
     "pslots_orig_refuted": ["-1 P new"] + ["-1 P alloc"] * 5 + ["-1 P delete 7", "0 P alloc", "-1 P alloc", "-1 P free"],
     "vdata_extend_f_orig_refuted": ["-1 D new 1", "-1 D resize 0 0 2", "-1 D resize 2 2 2", "-1 D free"],
+    # D72 / D73 as first read: the object's own vector handed to the setter that changes the z0 mode
+    "set_fz0_vector_alias_refuted": ["-1 Z new", "-1 Z resize 2 2 2", "-1 Z setfz0v 1 1 0", "-1 Z free"],
+    "set_z0_vector_alias_refuted": ["-1 Z new", "-1 Z resize 2 2 2", "-1 Z setfz0 0 0", "-1 Z setz0v 2 1", "-1 Z free"],
+    # the shape of the seeded change C03-4: rows for the frequencies in use only
+    "convert_rows_in_use_refuted": ["-1 Z new", "-1 Z resize 2 2 4", "-1 Z resize 2 2 1", "-1 Z setfz0 0 1", "-1 Z resize 2 2 3", "-1 Z setfz0 2 1", "-1 Z free"],
     "add_arrays_d14_refuted": ["-1 A 1 2 1 2 1 2 2"],
     "add_arrays_d50_refuted": ["-1 A 0 2 2 2 2 0 0"],
     "add_arrays_d48_refuted": ["-1 A 0 2 3 3 3 3 3"],
@@ -286,6 +340,10 @@ def run_tie(ctx, exe_unused, prop):
     scripts = [("witness/" + k, v) for k, v in sorted(WITNESSES.items())]
     for i in range(nscripts):
         scripts.append(("tie/%d" % i, gen_tie_script(ctx.rng, 40 if quick else 120, faults, ["L", "P", "D", "D1"][i % 4])))
+    for i in range(8 if quick else 100):
+        scripts.append(("tie/z0/%d" % i, gen_z_script(ctx.rng, 40 if quick else 120, faults)))
+    for i, n in enumerate((8, 16, 32) if quick else (8, 16, 32, 64, 8, 16, 32, 64, 128)):
+        scripts.append(("tie/listboundary/%d" % i, gen_list_boundary_script(ctx.rng, n, faults)))
     if not faults:
         scripts.append(("tie/add", gen_add_cases(ctx.rng, 120 if quick else 1500)))
     # the two hash tables: bucket-for-bucket comparison
